@@ -16,14 +16,19 @@ use std::sync::atomic::{AtomicU64, Ordering};
 
 pub const FILES: [&str; 3] = ["/p/a.graphql", "/p/b.graphql", "/p/c.graphql"];
 /// (text, imports as absolute targets, parses)
-pub const SOURCES: [(&str, &[&str], bool); 6] = [
+pub const SOURCES: [(&str, &[&str], bool); 8] = [
     ("query Q { a }\n", &[], true),
     ("#import F from \"./b.graphql\"\nquery Q { a ...F }\n", &["/p/b.graphql"], true),
     ("fragment F on T { x }\n", &[], true),
     ("#import * from \"./a.graphql\"\nfragment F on T { x }\n", &["/p/a.graphql"], true),
     ("query Q { a ", &[], false),
     ("#import * from \"./c.graphql\"\n#import * from \"./b.graphql\"\nquery R { r }\nfragment G on T { y }\n", &["/p/c.graphql", "/p/b.graphql"], true),
+    // same names as 2 and 0 with other bodies: re-supplying a file changes the module (explicit-call families only)
+    ("fragment F on T { y z }\n", &[], true),
+    ("query Q { b }\n", &[], true),
 ];
+/// sources of the full alphabet (6 and 7 are used by the explicit-call families)
+const N_FULL: u8 = 6;
 
 #[derive(Clone, Copy, Debug, PartialEq, Eq, Hash)]
 pub enum Op {
@@ -144,11 +149,68 @@ fn fresh_emit(root: &str, files: &BTreeMap<String, usize>) -> (bool, String) {
 }
 
 /// Runs one history on a fresh thread; Ok(stats) or Err((key, what)).
-fn check_history(ops: Vec<Op>) -> Result<J, (String, String)> {
-    std::thread::spawn(move || check_history_here(&ops)).join().unwrap_or_else(|_| Err(("machinery.child_thread_panicked".into(), String::new())))
+fn check_history(ops: Vec<Op>, probe_every_step: bool) -> Result<J, (String, String)> {
+    std::thread::spawn(move || check_history_here(&ops, probe_every_step)).join().unwrap_or_else(|_| Err(("machinery.child_thread_panicked".into(), String::new())))
 }
 
-fn check_history_here(ops: &[Op]) -> Result<J, (String, String)> {
+/// one required() or emit() call on the id denoted by `t`, judged against the model
+fn judge_call(tasks: &[MTask], t: usize, emit: bool, ctx: &str, calls: &mut u64, emits_ok: &mut u64) -> Result<(), (String, String)> {
+    let (id, idx) = {
+        if t < tasks.len() {
+            (tasks[t].id, Some(t))
+        } else {
+            let max = tasks.iter().map(|x| x.id).max().unwrap_or(0);
+            (max + 1 + (t - tasks.len()), None)
+        }
+    };
+    let live = idx.is_some_and(|i| tasks[i].live);
+    *calls += 1;
+    if !emit {
+        let r = graphql_loader::get_required_files(id);
+        let text = abi_result();
+        if r != live {
+            let cls = if idx.is_none() { "never_issued_id" } else if !live { "freed_id" } else { "live_task" };
+            return Err((format!("required.wrong_status:{cls}"), format!("{ctx}; then required(id {id}) returned {r}, expected {live}")));
+        }
+        if live {
+            let got: Vec<&str> = text.split('\n').filter(|s| !s.is_empty()).collect();
+            let set: BTreeSet<String> = got.iter().map(|s| s.to_string()).collect();
+            let want = expected_required(&tasks[idx.unwrap()]);
+            if set.len() != got.len() {
+                return Err(("required.duplicates".into(), format!("{ctx}; then required(id {id}) lists a file twice: {got:?}")));
+            }
+            if set != want {
+                return Err(("required.wrong_set".into(), format!("{ctx}; then required(id {id}) = {set:?}, expected {want:?}")));
+            }
+        } else if text.is_empty() {
+            return Err(("required.no_error_text".into(), format!("{ctx}; then required(id {id}) failed without an error text")));
+        }
+        return Ok(());
+    }
+    let r = graphql_loader::emit_js(id);
+    let text = abi_result();
+    if !live {
+        if r {
+            let cls = if idx.is_none() { "never_issued_id" } else { "freed_id" };
+            return Err((format!("emit.wrong_status:{cls}"), format!("{ctx}; then emit(id {id}) succeeded on an id that is not live")));
+        }
+        return Ok(());
+    }
+    let task = &tasks[idx.unwrap()];
+    let (fok, ftext) = fresh_emit(&task.root, &task.files);
+    if r != fok {
+        return Err(("emit.differs_from_fresh_task:status".into(), format!("{ctx}; then emit(id {id}) returned {r} but a fresh task with the same files returns {fok}")));
+    }
+    if r {
+        *emits_ok += 1;
+        if text != ftext {
+            return Err(("emit.differs_from_fresh_task:module".into(), format!("{ctx}; then emit(id {id}) differs from the module of a fresh task with the same files")));
+        }
+    }
+    Ok(())
+}
+
+fn check_history_here(ops: &[Op], probe_every_step: bool) -> Result<J, (String, String)> {
     let mut tasks: Vec<MTask> = vec![];
     let mut calls = 0u64;
     let mut emits_ok = 0u64;
@@ -210,53 +272,19 @@ fn check_history_here(ops: &[Op]) -> Result<J, (String, String)> {
                     tasks[i].live = false;
                 }
             }
-            Op::Req(_) | Op::Emit(_) => {} // covered by the probes below (run after every step)
+            Op::Req(t) => judge_call(&tasks, t as usize, false, &ctx, &mut calls, &mut emits_ok)?,
+            Op::Emit(t) => judge_call(&tasks, t as usize, true, &ctx, &mut calls, &mut emits_ok)?,
         }
-        // probes: every id ever issued, and two never-issued ids
+        // probes: every id ever issued, and two never-issued ids - after every call, or (explicit-call
+        // families, where required()/emit() are letters of the alphabet and nothing is called in
+        // between) only after the last one
+        if !probe_every_step && step + 1 != ops.len() {
+            continue;
+        }
         let n = tasks.len();
         for t in 0..n + 2 {
-            let (id, idx) = id_of(&tasks, t as u8);
-            let live = idx.is_some_and(|i| tasks[i].live);
-            calls += 2;
-            let r = graphql_loader::get_required_files(id);
-            let text = abi_result();
-            if r != live {
-                let cls = if idx.is_none() { "never_issued_id" } else if !live { "freed_id" } else { "live_task" };
-                return Err((format!("required.wrong_status:{cls}"), format!("{ctx}; then required(id {id}) returned {r}, expected {live}")));
-            }
-            if live {
-                let got: Vec<&str> = text.split('\n').filter(|s| !s.is_empty()).collect();
-                let set: BTreeSet<String> = got.iter().map(|s| s.to_string()).collect();
-                let want = expected_required(&tasks[idx.unwrap()]);
-                if set.len() != got.len() {
-                    return Err(("required.duplicates".into(), format!("{ctx}; then required(id {id}) lists a file twice: {got:?}")));
-                }
-                if set != want {
-                    return Err(("required.wrong_set".into(), format!("{ctx}; then required(id {id}) = {set:?}, expected {want:?}")));
-                }
-            } else if text.is_empty() {
-                return Err(("required.no_error_text".into(), format!("{ctx}; then required(id {id}) failed without an error text")));
-            }
-            let r = graphql_loader::emit_js(id);
-            let text = abi_result();
-            if !live {
-                if r {
-                    let cls = if idx.is_none() { "never_issued_id" } else { "freed_id" };
-                    return Err((format!("emit.wrong_status:{cls}"), format!("{ctx}; then emit(id {id}) succeeded on an id that is not live")));
-                }
-                continue;
-            }
-            let task = &tasks[idx.unwrap()];
-            let (fok, ftext) = fresh_emit(&task.root, &task.files);
-            if r != fok {
-                return Err(("emit.differs_from_fresh_task:status".into(), format!("{ctx}; then emit(id {id}) returned {r} but a fresh task with the same files returns {fok}")));
-            }
-            if r {
-                emits_ok += 1;
-                if text != ftext {
-                    return Err(("emit.differs_from_fresh_task:module".into(), format!("{ctx}; then emit(id {id}) differs from the module of a fresh task with the same files")));
-                }
-            }
+            judge_call(&tasks, t, false, &ctx, &mut calls, &mut emits_ok)?;
+            judge_call(&tasks, t, true, &ctx, &mut calls, &mut emits_ok)?;
         }
     }
     Ok(json!({"calls": calls, "emits_ok": emits_ok, "tasks": tasks.len()}))
@@ -265,7 +293,7 @@ fn check_history_here(ops: &[Op]) -> Result<J, (String, String)> {
 pub fn child() -> i32 {
     crate::worker::serve(|req| {
         let ops: Vec<Op> = req["ops"].as_array().map(|a| a.iter().map(op_from).collect()).unwrap_or_default();
-        match check_history(ops) {
+        match check_history(ops, req["probes"].as_str() != Some("end-only")) {
             Ok(stats) => json!({"ok": stats}),
             Err((k, w)) => json!({"err": [k, w]}),
         }
@@ -308,14 +336,18 @@ pub fn run(args: &Args) -> i32 {
     let distinct = DistinctSet::new();
     let mut fam = serde_json::Map::new();
     // (name, alphabet, depth)
-    let all: Vec<u8> = (0..SOURCES.len() as u8).collect();
+    let all: Vec<u8> = (0..N_FULL).collect();
     let mut plans = vec![("full-alphabet", alphabet(3, &all, 3, false), if args.quick() { 3 } else { 3 })];
     if args.quick() {
         plans.push(("2files-4sources-depth4", alphabet(2, &[1, 2, 3, 4], 2, false), 4));
+        // required()/emit() as letters, nothing called between the letters: one task, files re-supplied with other bodies
+        plans.push(("explicit-calls:2files-5sources-1task-depth4", alphabet(2, &[0, 1, 2, 6, 7], 1, true), 4));
     } else {
         plans.push(("3files-4sources-2tasks-depth4", alphabet(3, &[1, 2, 3, 4], 2, false), 4));
         plans.push(("2files-3sources-2tasks-depth5", alphabet(2, &[1, 3, 4], 2, false), 5));
         plans.push(("probes-as-operations-depth4", alphabet(2, &[1, 3], 2, true), 4));
+        plans.push(("explicit-calls:2files-5sources-2tasks-depth4", alphabet(2, &[0, 1, 2, 6, 7], 2, true), 4));
+        plans.push(("explicit-calls:2files-4sources-1task-depth5", alphabet(2, &[0, 1, 2, 6], 1, true), 5));
     }
     // AddressSanitizer pass: the same engine, served by the sanitizer build of this binary
     let asan_exe = std::env::var("NQV_ASAN_EXE").ok().filter(|p| std::path::Path::new(p).exists());
@@ -370,8 +402,8 @@ pub fn run(args: &Args) -> i32 {
                     asan_histories.fetch_add(1, Ordering::Relaxed);
                 }
                 let worker_pid = if asan { pool.pid(slot) } else { 0 };
-                let req = json!({"ops": ops.iter().map(op_json).collect::<Vec<_>>()});
-                let case = || json!({"ops": ops.iter().map(op_json).collect::<Vec<_>>(), "shown": ops.iter().map(op_show).collect::<Vec<_>>()});
+                let req = json!({"ops": ops.iter().map(op_json).collect::<Vec<_>>(), "probes": if name.starts_with("explicit-calls") { "end-only" } else { "every-step" }});
+                let case = || json!({"ops": ops.iter().map(op_json).collect::<Vec<_>>(), "shown": ops.iter().map(op_show).collect::<Vec<_>>(), "probes": if name.starts_with("explicit-calls") { "end-only" } else { "every-step" }});
                 match pool.ask(slot, &req) {
                     Answer::Done(v) => {
                         if let Some(e) = v.get("err") {
@@ -424,7 +456,7 @@ pub fn run(args: &Args) -> i32 {
         "traces_validated_against_impl": n,
         "evaluations": n,
         "distinct_nontrivial": nontrivial.load(Ordering::Relaxed),
-        "rule": "every history of exactly `depth` mutating calls (initiate/load/free over the alphabets below; prefixes are checked on the way); after every call all issued ids and two never-issued ids are probed with required() and emit(); non-trivial = at least one emit succeeded and was compared with a fresh task's module",
+        "rule": "every history of exactly `depth` calls over the alphabets below (prefixes are checked on the way); in the initiate/load/free families all issued ids and two never-issued ids are probed with required() and emit() after every call; in the explicit-calls families required()/emit() are letters themselves, judged as they occur, with nothing called in between (probes only after the last call); non-trivial = at least one emit succeeded and was compared with a fresh task's module",
         "exhaustive": true,
         "families": fam,
         "address_sanitizer_pass": if asan_pool.is_some() { json!({"histories": asan_histories.load(Ordering::Relaxed), "build": "nightly -Zsanitizer=address, leak detection off (the ABI leaks the 24-byte String header of alloc_string by design)"}) } else { json!("not run: the sanitizer build is not available") },
@@ -448,6 +480,6 @@ pub fn replay(case: &J) -> i32 {
     for s in case["shown"].as_array().unwrap_or(&vec![]) {
         println!("  {}", s.as_str().unwrap_or(""));
     }
-    println!("worker answer: {:?}", w.ask(&json!({"ops": case["ops"]})));
+    println!("worker answer: {:?}", w.ask(&json!({"ops": case["ops"], "probes": case["probes"]})));
     0
 }
